@@ -77,6 +77,13 @@ def vtOK (S : Sem) (e : Expr) : Bool :=
   | some vt => vt == toVT (tyOf S e) || (vt.type == 0 && vt.sign != .signed && e.isBoolVal)
   | none => true
 
+/-- `vtOK` on every node -/
+def vtAll (S : Sem) : Expr → Bool
+  | .lit a sp => vtOK S (.lit a sp)
+  | .var a x => vtOK S (.var a x)
+  | .un a op e => vtOK S (.un a op e) && vtAll S e
+  | .bin a op l r => vtOK S (.bin a op l r) && vtAll S l && vtAll S r
+
 def boolWord (b : Bool) : String := if b then "true" else "false"
 
 /-- `ValueType::str()` for a non-pointer integral type -/
@@ -86,10 +93,13 @@ def vtName (vt : VT) : String :=
     | 0 => "bool" | 1 => "char" | 2 => "short" | 3 => "int" | 4 => "long" | 5 => "long long" | _ => "?"
   s ++ t
 
+/-- a reported finding; `verdict` is the truth value the message claims ("… always true." / "… always false."), kept as a
+    field so that theorems can speak about it (`finding_msg_verdict` ties it to the text) -/
 structure Finding where
   id : String
   col : Nat
   msg : String
+  verdict : Bool
   deriving Repr, DecidableEq
 
 /-- the (at most one: `diag(tok)`) compareValueOutOfTypeRangeError of a comparison token -/
@@ -97,7 +107,8 @@ def rangeFinding (op : BinOp) (l r : Expr) : Option Finding :=
   let mk (valueTok typeTok : Expr) (b : Bool) : Finding :=
     { id := "compareValueOutOfTypeRangeError", col := valueTok.ann.col,
       msg := "Comparing expression of type '" ++ (match typeTok.ann.vt with | some v => vtName v | none => "") ++
-             "' against value " ++ toString (valueTok.ann.known.getD 0) ++ ". Condition is always " ++ boolWord b ++ "." }
+             "' against value " ++ toString (valueTok.ann.known.getD 0) ++ ". Condition is always " ++ boolWord b ++ ".",
+      verdict := b }
   match outOfRange op 0 l r with
   | some b => some (mk l r b)
   | none =>
@@ -119,6 +130,23 @@ def numChildren (op : BinOp) : Expr → List Int
        | _ => [])
     else []
   | _ => []
+
+/-- an operand that `getnumchildren` passes over: neither a number token nor a further link of the `bitop` chain -/
+def plainOperand (bitop : BinOp) : Expr → Bool
+  | .lit _ _ => false
+  | .bin _ o _ _ => o != bitop
+  | _ => true
+
+/-- `expr1->astOperand1()->valueType()->sign == UNSIGNED` -/
+def unsFlag (x : Expr) : Bool := match x.ann.vt with | some v => v.sign == .unsigned | none => false
+
+/-- the bit tests the Expr-level theorems cover: `x & n`, `n & x`, and `x | n` with unsigned `x`, with one number token `n`
+    and an operand `x` that `getnumchildren` passes over (deeper chains: only the table theorems) -/
+def bitShape : Expr → Bool
+  | .bin _ .band x (.lit _ _) => plainOperand .band x
+  | .bin _ .band (.lit _ _) x => plainOperand .band x
+  | .bin _ .bor x (.lit _ _) => plainOperand .bor x && unsFlag x
+  | _ => false
 
 /-- verdict of `comparison()` for `(X bitop num1) op num2`; `unsignedLhs`: first operand of the `|` has an unsigned type -/
 def bitCmpVerdict (bitop op : BinOp) (unsignedLhs : Bool) (num1 num2 : Int) : Option Bool :=
@@ -157,13 +185,14 @@ def bitCmpFindingsAux (op : BinOp) (expr1 expr2 : Expr) : List Finding :=
       match expr1 with
       | .bin a bitop x _ =>
         if bitop == .band || bitop == .bor then
-          let uns := match x.ann.vt with | some v => v.sign == .unsigned | none => false
+          let uns := unsFlag x
           (numChildren bitop expr1).filterMap fun num1 =>
             match bitCmpVerdict bitop op uns num1 num2 with
             | some b =>
               some { id := "comparisonError", col := a.col,
                      msg := "Expression '(X " ++ opStr bitop ++ " 0x" ++ hexDigits num1.toNat ++ ") " ++ opStr op ++ " 0x" ++
-                            hexDigits num2.toNat ++ "' is always " ++ boolWord b ++ "." }
+                            hexDigits num2.toNat ++ "' is always " ++ boolWord b ++ ".",
+                     verdict := b }
             | none => none
         else []
       | _ => []
